@@ -20,7 +20,9 @@ Qed.
 Theorem rt_fin_roundtrip (q : positive) (e : Z) (neg : bool) s :
   podd q -> fl_to_string (FFin (if neg then Zneg q else Zpos q) e) = Some s ->
   parse_float_round s = FRVal (FFin (if neg then Zneg q else Zpos q) e) /\
-  ((mem 46 s || mem 101 s)%bool = true \/ parse_float_round (s ++ [46; 48]%N) = FRVal (FFin (if neg then Zneg q else Zpos q) e)).
+  (((mem 46 s || mem 101 s)%bool = true /\ rt_shape s) \/
+   ((mem 46 s || mem 101 s)%bool = false /\
+    parse_float_round (s ++ [46; 48]%N) = FRVal (FFin (if neg then Zneg q else Zpos q) e) /\ rt_shape (s ++ [46; 48]%N))).
 Proof.
   intros Hodd Hs. unfold fl_to_string in Hs.
   assert (Ea : Z.abs (if neg then Zneg q else Zpos q) = Zpos q) by (destruct neg; reflexivity).
@@ -36,10 +38,17 @@ Qed.
 Theorem fl_to_string_parse (x : fl) (s : bstr) :
   fl_finite_norm x -> fl_to_string x = Some s ->
   parse_float_round s = FRVal x /\
-  ((mem 46 s || mem 101 s)%bool = true \/ parse_float_round (s ++ [46; 48]%N) = FRVal x).
+  (((mem 46 s || mem 101 s)%bool = true /\ rt_shape s) \/
+   ((mem 46 s || mem 101 s)%bool = false /\ parse_float_round (s ++ [46; 48]%N) = FRVal x /\ rt_shape (s ++ [46; 48]%N))).
 Proof.
   destruct x as [| |n|m e]; cbn [fl_finite_norm]; try contradiction.
-  - intros _ Hs. destruct n; cbn in Hs; injection Hs as <-; split; try (right; reflexivity); reflexivity.
+  - intros _ Hs.
+    assert (H48 : rt_digs [48%N]) by (constructor; [unfold is_digit_byte; lia|constructor]).
+    destruct n; cbn in Hs; injection Hs as <-; (split; [reflexivity|]); right; (split; [reflexivity|]); (split; [reflexivity|]).
+    + exists true, [48%N], [48%N], false, false, []. split; [reflexivity|]. split; [exact H48|]. split; [discriminate|]. split; [exact H48|].
+      split; [constructor|]. split; [exact Logic.I|]. left. discriminate.
+    + exists false, [48%N], [48%N], false, false, []. split; [reflexivity|]. split; [exact H48|]. split; [discriminate|]. split; [exact H48|].
+      split; [constructor|]. split; [exact Logic.I|]. left. discriminate.
   - intros Hm Hs. destruct m as [|q|q]; [discriminate| |].
     + apply (rt_fin_roundtrip q e false s); [destruct q; try discriminate; exact Logic.I|exact Hs].
     + apply (rt_fin_roundtrip q e true s); [destruct q; try discriminate; exact Logic.I|exact Hs].
